@@ -150,11 +150,26 @@ func floatEq(a, b float64) bool {
 	return d <= relTol*m
 }
 
+// NumText stands, on the expected side of a comparison, for "a decimal text of this number": it equals every
+// string that parses as a number within 5e-7 (six decimals) or 1e-12 relative of it, and nothing else.
+type NumText float64
+
+func (n NumText) matches(s string) bool {
+	f, err := strconv.ParseFloat(s, 64)
+	if err != nil || strings.TrimSpace(s) != s {
+		return false
+	}
+	return math.Abs(f-float64(n)) <= 5e-7+1e-12*math.Abs(float64(n))
+}
+
 // Equal compares two normalised values structurally. nil slice == empty slice.
 func Equal(a, b any) bool {
 	switch x := a.(type) {
 	case nil:
 		return b == nil
+	case NumText:
+		y, ok := b.(string)
+		return ok && x.matches(y)
 	case map[string]any:
 		y, ok := b.(map[string]any)
 		if !ok || len(x) != len(y) {
@@ -182,6 +197,9 @@ func Equal(a, b any) bool {
 		y, ok := b.(float64)
 		return ok && floatEq(x, y)
 	case string:
+		if n, isNum := b.(NumText); isNum {
+			return n.matches(x)
+		}
 		y, ok := b.(string)
 		return ok && x == y
 	case bool:
